@@ -110,12 +110,50 @@ func (e *Engine) invokeValue(st *State, g *G, fr *Frame, callee Value, args []Va
 		e.pushFrame(st, g, f.fn, args, f.free, retTo)
 		return nil, true
 	case *ssa.Function:
+		// descriptor-declared stubs; by default String() methods of bio-rd types are formatting stubs
+		kind, ok := e.stubs[f.String()]
+		if !ok && f.Name() == "String" && f.Pkg != nil && strings.HasPrefix(f.Pkg.Pkg.Path(), modPath) && f.Signature.Params().Len() == 0 &&
+			f.Signature.Results().Len() == 1 && f.Signature.Results().At(0).Type().String() == "string" {
+			kind, ok = "opaque-string", true
+		}
+		if ok && kind != "real" {
+			switch kind {
+			case "fresh-copy":
+				// dedup caches: return a pointer to a private copy of the argument (no sharing between equal values)
+				return e.finishCall(st, g, fr, in, st.alloc(args[len(args)-1]))
+			case "identity":
+				return e.finishCall(st, g, fr, in, args[len(args)-1])
+			case "noop":
+				return e.finishCall(st, g, fr, in, nil)
+			case "opaque-string":
+				// formatting of (possibly symbolic) values for messages: the text is never inspected
+				return e.finishCall(st, g, fr, in, "<"+f.Name()+">")
+			}
+			return e.abort(st, "unknown stub kind "+kind), false
+		}
 		// intrinsics
 		if succ, handled, cont := e.intrinsic(st, g, fr, in, f, args); handled {
 			return succ, cont
 		}
 		// models
+		e.curSt, e.pendingEq = st, nil
 		if ret, handled, why := e.model(st, g, fr, f, args); handled {
+			if e.pendingEq != nil {
+				// the model needs an undecided symbolic condition: fork on it and re-execute the call
+				c, key := e.pendingEq, e.pendingKey
+				e.pendingEq = nil
+				t, f := e.forkOn(st, c)
+				var out []*State
+				if t != nil {
+					t.decided[key] = true
+					out = append(out, t)
+				}
+				if f != nil {
+					f.decided[key] = false
+					out = append(out, f)
+				}
+				return out, false
+			}
 			if why == "BLOCK" {
 				return e.schedule(st), false
 			}
